@@ -8,7 +8,7 @@ use crate::jws::encode_kid;
 use crate::logs::HasLogger;
 use crate::storage;
 use crate::{AccountSync, EndpointSync};
-use acme_common::crypto::Csr;
+use acme_common::crypto::{Csr, X509Certificate};
 use acme_common::error::Error;
 use serde_json::json;
 use std::fmt;
@@ -225,7 +225,7 @@ pub async fn request_certificate(
 	drop(data_builder);
 
 	// Finalize the order by sending the CSR
-	let key_pair = certificate::get_key_pair(cert).await?;
+	let (key_pair, is_new_key_pair) = certificate::get_key_pair(cert).await?;
 	let domains: Vec<String> = cert
 		.identifiers
 		.iter()
@@ -285,6 +285,16 @@ pub async fn request_certificate(
 		.await
 		.map_err(HttpError::in_err)?;
 	drop(data_builder);
+
+	// Install the new key pair and certificate only if they are usable together
+	let leaf = X509Certificate::leaf_from_pem_chain(crt.as_bytes())
+		.map_err(|e| e.prefix("invalid certificate received"))?;
+	if !leaf.has_public_key_of(&key_pair)? {
+		return Err("the received certificate does not match the private key".into());
+	}
+	if is_new_key_pair {
+		storage::set_keypair(&cert.file_manager, &key_pair).await?;
+	}
 	storage::write_certificate(&cert.file_manager, crt.as_bytes()).await?;
 
 	cert.info(&format!(
